@@ -9,6 +9,8 @@ Workload W2 – related pairs of specifications obtained from real searches:
   reload     (specification, its JSON reload)
   self       (specification, itself)
   unrelated  random pairs (negatives; ~2% are isomorphic by chance)
+  finder     the pair returned by the parallel specification finder for (c, relabelled c)
+             under packs with symmetries (atoms matched with classes equivalent to atoms)
 Monitors: vmon.m_bijection (postconditions on Bijection.construct / from_dict and on
 Isomorphism.check); the driver adds reflexivity.
 """
@@ -45,7 +47,7 @@ FLOORS = {
 }
 CASE_TIMEOUT = {"quick": 90, "thorough": 180}
 SIZES = {"quick": 450, "thorough": 9000}
-KINDS = ("relabel", "redundant", "repack", "repack", "reload", "self", "unrelated")
+KINDS = ("relabel", "redundant", "repack", "repack", "reload", "self", "unrelated", "finder", "near")
 
 
 def shard_setup(tier):
@@ -75,6 +77,23 @@ def add_redundant(desc, rng):
     return d
 
 
+def near_miss(desc, rng):
+    """Same class with one letter of one pattern (or of the prefix) changed: universes that
+    match for a while and then fail."""
+    d = dict(desc)
+    pats = list(desc["patterns"])
+    al = desc["alphabet"]
+    if pats and (rng.random() < 0.7 or not desc["prefix"]):
+        i = rng.randrange(len(pats))
+        p = pats[i]
+        j = rng.randrange(len(p))
+        pats[i] = p[:j] + rng.choice([a for a in al if a != p[j]] or [p[j]]) + p[j + 1:]
+        d["patterns"] = sorted(set(pats))
+    else:
+        d["patterns"] = sorted(set(pats + ["".join(rng.choice(al) for _ in range(rng.randint(2, 3)))]))
+    return d
+
+
 def atom_pack(rng, iterative=False):
     o = gen.rand_pack(rng, None, allow_iterative=False, allow_prefix_ver=False)
     o["ver"] = "stat"
@@ -93,11 +112,18 @@ def gen_cases(tier, seed):
         if rw.is_empty(c1):
             continue
         p1 = atom_pack(rng)
-        if kind == "relabel":
+        if kind == "finder":
+            p1["sym"] = True
+            c2, p2 = relabel(c1, rng), dict(p1)
+        elif kind == "relabel":
             c2, p2 = relabel(c1, rng), (dict(p1) if rng.random() < 0.6 else atom_pack(rng))
         elif kind == "redundant":
             c2, p2 = add_redundant(c1, rng), dict(p1)
             p2["inferral"] = ["minimise"]
+        elif kind == "near":
+            c2, p2 = near_miss(c1, rng), dict(p1)
+            if rw.is_empty(c2):
+                continue
         elif kind == "repack":
             c2, p2 = dict(c1), atom_pack(rng)
         elif kind in ("reload", "self"):
@@ -133,10 +159,25 @@ def run_case(case):
 
     cx = base.ctx()
     m_bijection.CONFIG["N"] = case["N"]
-    s1 = _search(case["c1"], case["p1"], case["db"], case["seed"])
-    if s1 is None:
-        return {"skip": "no specification"}
-    if case["kind"] == "self":
+    if case["kind"] == "finder":
+        from comb_spec_searcher.bijection import ParallelSpecFinder
+
+        try:
+            out = ParallelSpecFinder(
+                gen.build_searcher({"cls": case["c1"], "pack": case["p1"], "db": "base"}),
+                gen.build_searcher({"cls": case["c2"], "pack": case["p2"], "db": "base"})).find()
+        except (ValueError, AssertionError):
+            out = None  # the finder's own behaviour is C13's subject
+        if out is None:
+            return {"skip": "finder returned no pair"}
+        s1, s2 = out
+    else:
+        s1 = _search(case["c1"], case["p1"], case["db"], case["seed"])
+        if s1 is None:
+            return {"skip": "no specification"}
+    if case["kind"] == "finder":
+        pass
+    elif case["kind"] == "self":
         s2 = s1
     elif case["kind"] == "reload":
         s2 = CombinatorialSpecification.from_dict(json.loads(json.dumps(s1.to_jsonable())))
